@@ -37,6 +37,7 @@ _SIMPLE = {
     "FieldSet": ("AL", "String", ("Option", "Num")),
     "FieldValue": ("Option", "Num"),
     "Point": "Point",
+    "SimpleQuery": "SimpleQuery",  # the record of what the index uses of a query object (Py/Typed.lean)
 }
 
 
@@ -415,6 +416,8 @@ class Fn:
                 return f"({name} {self.atom(recv)} {self.atom(args[0])})"
             if f.attr == "timestamp" and not args:
                 return f"(timestamp {self.atom(recv)})"
+            if isinstance(recv, ast.Name) and self.env.get(recv.id) == "SimpleQuery" and f.attr == "_test" and len(args) == 1:
+                return f"(← {recv.id}._test {self.atom(args[0])})"
             if _is_self_attr(f) and f.attr in self.cls.readers:
                 return f"(← {f.attr} self {' '.join(self.atom(a) for a in args)})"
         raise Unsupported("call " + ast.dump(e))
@@ -575,6 +578,30 @@ class Fn:
                 n = f.value.id
                 return f"{ind}let {n} := sortedBy {self.lam(kw['key'])} {n}\n" + self.block(rest, k, ind, defined)
             raise Unsupported("statement " + ast.dump(s))
+        if isinstance(s, ast.Try):
+            # try: x = query._path_resolver(arg)  except Exception: <a block that leaves the iteration>
+            ok = (len(s.body) == 1 and isinstance(s.body[0], ast.Assign) and len(s.body[0].targets) == 1
+                  and isinstance(s.body[0].targets[0], ast.Name) and len(s.handlers) == 1 and not s.orelse and not s.finalbody
+                  and isinstance(s.handlers[0].type, ast.Name) and s.handlers[0].type.id == "Exception"
+                  and s.handlers[0].name is None and exits(s.handlers[0].body))
+            call = s.body[0].value if ok else None
+            ok = (ok and isinstance(call, ast.Call) and isinstance(call.func, ast.Attribute) and not call.keywords
+                  and call.func.attr == "_path_resolver" and isinstance(call.func.value, ast.Name)
+                  and self.env.get(call.func.value.id) == "SimpleQuery" and len(call.args) == 1)
+            if not ok:
+                raise Unsupported("try statement " + ast.dump(s)[:200])
+            a = call.args[0]
+            if isinstance(a, ast.Dict) and len(a.keys) == 1:
+                arg = f"(entryArg {self.atom(a.keys[0])} {self.atom(a.values[0])})"
+            else:
+                arg = f"(toArg {self.atom(a)})"
+            if "←" in arg:
+                raise Unsupported("raising argument of a guarded call")
+            x = s.body[0].targets[0].id
+            i2 = ind + "  "
+            return (f"{ind}match {call.func.value.id}._path_resolver {arg} with\n"
+                    f"{ind}| .error _ => do\n{self.block(s.handlers[0].body, k, i2, defined)}"
+                    f"{ind}| .ok {x} => do\n{self.block(rest, k, i2, defined | {x})}")
         if isinstance(s, ast.If):
             c = self.cond(s.test)
             be, oe = exits(s.body), exits(s.orelse)
@@ -689,6 +716,7 @@ INDEX_METHODS = [
     "_update_fields", "_update_timestamps", "_update_measurements", "_update_tags", "update",
     "build",
     "get_field_keys", "get_field_values", "get_measurements", "get_tag_keys", "get_tag_values", "get_timestamps",
+    "_search_fields", "_search_measurement", "_search_tags",
 ]
 
 
